@@ -1,18 +1,19 @@
 (* C10 proofs, part 2: finite-field invariants by controlled case analysis (part 1: ListInv.v, part 3: Proofs.v). *)
 From Slsk Require Import Base.Tac.
+From SlskGen Require Import C10LifeGen.
 From Slsk Require Import C10.Model C10.Prj C10.ListInv.
 
 (* ------------------------------------------------------------------ 2. finite-field invariants *)
 (* stated as boolean functions of a few projections, so that the step lemmas are closed by lazy
    case splitting on exactly the fields that [step] and the invariant inspect *)
 Lemma dd_cases c :
-  (closing (st c) = true /\ do_disconnect c = (c, false)) \/
-  (closing (st c) = false /\ writer c = WNone /\ do_disconnect c = (finish_close (report CLOSING c), false)) \/
-  (closing (st c) = false /\ writer c <> WNone /\
+  (guarded (st c) = true /\ do_disconnect c = (c, false)) \/
+  (guarded (st c) = false /\ writer c = WNone /\ do_disconnect c = (finish_close (report CLOSING c), false)) \/
+  (guarded (st c) = false /\ writer c <> WNone /\
    do_disconnect c = (set_closers (S (closers c)) (set_writer WClosing
         (set_reader (match reader c with RRunning => RDone | r => r end) (report CLOSING c))), true)).
 Proof.
-  unfold do_disconnect. destruct (closing (st c)); [now left|right].
+  unfold do_disconnect. destruct (guarded (st c)); [now left|right].
   autorewrite with prj. destruct (writer c); [left|right|right]; repeat split; try discriminate; reflexivity.
 Qed.
 
@@ -43,7 +44,7 @@ Definition inv1 (c : conn) : bool :=
   end && match st c with UNINIT => Nat.eqb (closers c) 0 | _ => true end.
 
 Ltac ev_cases c :=
-  cbn [step0]; repeat (match goal with
+  cbn [step0]; unflags; cbn [orb andb negb]; repeat (match goal with
   | |- context [match at_ c with _ => _ end] => destruct (at_ c) eqn:?
   | |- context [match kd c with _ => _ end] => destruct (kd c) eqn:?
   | |- context [match reader c with _ => _ end] => destruct (reader c) eqn:?
@@ -54,6 +55,7 @@ Ltac ev_cases c :=
   | |- context [match in_reg c with _ => _ end] => destruct (in_reg c) eqn:?
   | |- context [match ?a with ThenRaise => _ | ThenRet => _ | ThenCancel => _ end] => destruct a
   | |- context [if closing (st c) then _ else _] => destruct (closing (st c)) eqn:?
+  | |- context [if guarded (st c) then _ else _] => destruct (guarded (st c)) eqn:?
   | |- context [match st c with _ => _ end] => destruct (st c) eqn:?
   | |- context [match ?t with TP => _ | TF => _ | TD => _ end] => destruct t eqn:?
   | |- context [if ?b then _ else _] => destruct b eqn:?
@@ -105,7 +107,7 @@ Ltac fin2 c :=
   | E : kd c = _ |- _ => rewrite ?E in *; clear E
   | E : writer c = _ |- _ => rewrite ?E in *; clear E
   end;
-  norm; unfold ok_next, cst_eqb, rank, closing, is_server in *; cbn in *;
+  norm; unfold ok_next, cst_eqb, rank, closing, guarded, removes, is_server in *; unflags; cbn in *;
   try discriminate; try reflexivity; try assumption; try congruence;
   repeat (match goal with
           | H : context [st c] |- _ => destruct (st c)
@@ -151,7 +153,7 @@ Ltac fin3 c :=
   | E : writer c = _ |- _ => rewrite ?E in *; clear E
   | E : in_reg c = _ |- _ => rewrite ?E in *; clear E
   end;
-  norm; unfold is_server, cst_eqb, rank, closing in *; cbn in *;
+  norm; unfold is_server, cst_eqb, rank, closing, guarded, removes in *; unflags; cbn in *;
   try discriminate; try reflexivity; try assumption; try congruence;
   repeat (match goal with
           | H : ?w <> ?w |- _ => now elim H
